@@ -135,11 +135,14 @@ def main(argv=None):
         if left:
             by_task[t.label] = [oblig.Result(f'{t.label}/worker-died', ERROR, 'driver', 0.0, tuple(t.props),
                                              {'message': 'the worker process running this task died three times (solver crash)'})]
-    # obligations a solver left undecided (timeouts are load dependent): those tasks are run once more with three times the solver budget
-    retry = [t for t in tasks if any(r.status == UNDECIDED and 'outside the interpretable subset' not in str(r.detail.get('message', '')) for r in by_task.get(t.label, []))]
+    # obligations a solver left undecided (timeouts are load dependent): those tasks are run once more with twice the solver budget
+    def n_undecided(t):
+        return sum(1 for r in by_task.get(t.label, []) if r.status == UNDECIDED and 'z3:' in str(r.detail.get('message', '')))
+    # (a task with many undecided obligations is beyond the solvers, not unlucky: it is not run again)
+    retry = [t for t in tasks if 0 < n_undecided(t) <= 6]
     if retry and not os.environ.get('HIDV_NO_RETRY'):
         old_budget = os.environ.get('HIDV_Z3_TIMEOUT_MS'), os.environ.get('HIDV_CVC5_TIMEOUT_S')
-        os.environ['HIDV_Z3_TIMEOUT_MS'] = str(3 * int(old_budget[0] or 20000)); os.environ['HIDV_CVC5_TIMEOUT_S'] = str(3 * int(old_budget[1] or 30))
+        os.environ['HIDV_Z3_TIMEOUT_MS'] = str(2 * int(old_budget[0] or 20000)); os.environ['HIDV_CVC5_TIMEOUT_S'] = str(2 * int(old_budget[1] or 30))
         if args.v:
             print(f'  {len(retry)} task(s) with undecided obligations are run again with a larger solver budget', file=sys.stderr, flush=True)
         before = {t.label: by_task[t.label] for t in retry}
